@@ -257,6 +257,10 @@ def run_gslb(ctx):
 
 def check_c03(ctx):
     check_all(ctx, {"ReplyOK", "unknown-backend"}, "C03")
+    q = ctx.tier == "quick"
+    # restarted backends under slow start, drained (weight 0) ones included: never selected, whatever the ramp does
+    run_cases(ctx, slowstart_cases(ctx, 14 if q else 100, algos=("smooth", "sticky", "wlc_smooth", "wlc_simple"),
+                                   ramp=(1, 2), stream=3), twin=False, label="C03-slowstart", decisive={"ReplyOK", "unknown-backend"})
     run_gslb(ctx)
     ctx.cov["rule"] += (" Plus Gslb.tla: TLC-simulated (configuration, request) pairs with the allowed outcome set, "
                         "replayed on bal_gslb.BalanceGslb in WRR, WLC and sticky mode.")
@@ -462,7 +466,7 @@ def slowstart_cases(ctx, num, algos=("wlc_smooth", "wlc_simple"), ramp=(1,), str
     out = []
     for _ in range(num):
         n = rnd.randint(1, 4)
-        w = [rnd.randint(1, 3) for _ in range(n)]
+        w = [rnd.randint(1, 3) if rnd.random() < 0.75 else 0 for _ in range(n)]     # 0 = drained backend
         ops = [{"op": "load", "n": n, "ord": list(range(1, n + 1)), "w": w}]
         for b in range(1, n + 1):
             for _ in range(rnd.randint(0, 6)):
